@@ -42,7 +42,7 @@ ID = "C06"
 DRIVER = "drv_c06"
 PROPS = ["Ptk.Props.C06", "Ptk.Props.C06Scroll", "Ptk.Props.C06Wide", "Ptk.Props.C06WideCells",
          "Ptk.Props.C06Diff", "Ptk.Props.C06Lemmas", "Ptk.Props.C06Cache", "Ptk.Props.C06Full", "Ptk.Props.C06Vt", "Ptk.Props.C06Bytes", "Ptk.Props.C06Resize", "Ptk.Props.C06Block",
-         "Ptk.Props.C06BlockFull"]
+         "Ptk.Props.C06BlockFull", "Ptk.Props.C06Tr"]
 LEVEL_TEXT = ("Lean 4 theorems over executable models of (1) the screen differ (_output_screen_diff with move_cursor / "
               "output_char / get_max_column_index), (2) the whole Renderer state machine: every attribute it keeps "
               "between calls including the two style dictionaries _attrs_for_style / _style_string_has_style with the "
@@ -68,7 +68,15 @@ LEVEL_TEXT = ("Lean 4 theorems over executable models of (1) the screen differ (
               "position report makes the drawn rows fit (fit_of_cpr); reading the bytes Vt100_Output writes equals the "
               "abstract terminal operation for every call and every inline session (interp_emit, interp_emitAll, "
               "diff_bytes, runFB_sim), so incremental = from scratch holds for the terminal that read the bytes "
-              "(session_bytes_eq_scratch). The models are tied to /repo on every run by regenerated tables and escape "
+              "(session_bytes_eq_scratch). The style transformation is also modelled as a VALUE with the invalidation hash the "
+              "code computes (Dummy / Conditional = (filter value, inner hash) / Dynamic = target's / merged = tuple / leaf "
+              "objects): equal hash implies equal transformation is PROVED for these classes (trHash_determines_apply; "
+              "cond_hash_needs_filter_value shows a hash that ignores the filter value breaks it), and cache_consistent / "
+              "render_refines / incremental = scratch are stated for sessions in which only the state of the transformation "
+              "objects changes between renders (tr_key_current, tr_differ_caches_current, render_refines_tr, "
+              "incremental_eq_scratch_tr); a reset forgets the cursor position report, so the drawn rows fit in every state "
+              "of a session, also after erase + foreign output + render before the next report (MinOk, fit_of_minOk, "
+              "fit_after_erase, min_avail_reset_needed). The models are tied to /repo on every run by regenerated tables and escape "
               "sequences with pins, a call-by-call and state-by-state correspondence (dictionary contents, hashes, sizes, "
               "CPR state, heights), a byte-for-byte comparison of the Lean encoder with the real Vt100_Output, a "
               "cross-check of both Lean terminals with an independent Python VT100 interpreter, and the property oracle on "
@@ -79,8 +87,12 @@ LEVEL_NOTE = ("partial: the terminal semantics is a model (trusted; the byte gra
               "cells of narrow characters separately: a screen that MIXES wide characters with multi-character cells (or a "
               "multi-character cell containing a wide character) has only the geometry theorems, its contents are covered by "
               "the correspondence and the oracle; the byte-level session theorem is for inline mode (entering the "
-              "alternate screen also homes the cursor, which the abstract model does not represent); trusted: Lean kernel, "
-              "propext/Classical.choice/Quot.sound")
+              "alternate screen also homes the cursor, which the abstract model does not represent); the hypothesis 'equal invalidation hash => equal "
+              "transformation' is a theorem for the modelled transformation classes (not an assumption); leaf "
+              "transformations (Swap / Reverse / SetDefaultColor objects) are parameters whose values are extracted from the "
+              "real objects; KNOWN FINDING: a transformation that makes the default char's style visible (Reverse, "
+              "SetDefaultColor) violates incremental = from-scratch when a row disappears (witness default_style_visible_breaks, "
+              "excluded from the theorems by WorldOk.dflt); trusted: Lean kernel, propext/Classical.choice/Quot.sound")
 TECHNIQUE = ("Lean 4 proof over executable models of the screen differ, the Renderer state machine with its style caches, "
              "the Vt100_Output encoder and a VT100 terminal (abstract + byte-level) + refinement between the models + "
              "regenerated tables with pins + call/state/byte differential correspondence + independent VT100 interpreter "
@@ -101,12 +113,20 @@ RULE = ("exhaustive: every pair (thorough: triple) of screens over 3 cell kinds 
         "(call, state, height and byte correspondence only), and screens produced by real PromptSession layouts "
         "(completion menus, toolbars, multiline, wide prompts, origin below the top with a truthful cursor position "
         "report, real Style / SwapLightAndDark switches) during random editing sessions; a case is non-trivial when "
-        "at least two renders draw different non-empty screens")
+        "at least two renders draw different non-empty screens; sessions on ONE Renderer whose application style "
+        "transformation is a graph of REAL objects (ConditionalStyleTransformation over a Condition that flips, "
+        "DynamicStyleTransformation switching targets, merge_style_transformations of them, SwapLightAndDark / Reverse / "
+        "SetDefaultColor leaves): 4 graph templates x every slot assignment x every change of one slot x 34 screen "
+        "pairs with NOTHING else invalidating between the renders, plus random chains; real PromptSession layouts with "
+        "swap_light_and_dark_colors flipping, and with erase + foreign output (cursor moved down) + render before / "
+        "after a new cursor position report")
 EXHAUSTIVE = True
 EXHAUSTIVE_SCOPE = {"quick": "(W,H) in {(1,1),(2,1),(3,1),(1,2)}: 3 cell kinds, all ordered pairs of screens, inline + "
                              "full-screen; (2,2): all ordered pairs, inline; style swaps: (2,1) all ordered pairs of "
                              "screens over 4 cell kinds x 9 style/transformation/depth transitions, inline; block cells: every "
-                             "ordered pair of the 33 rows of 3 columns over {gap, 'a', ^A (2 columns), e+combining accent}, inline",
+                             "ordered pair of the 33 rows of 3 columns over {gap, 'a', ^A (2 columns), e+combining accent}, inline; real "
+                             "transformation objects: 4 templates, all slot assignments, all one-slot changes, 34 pairs of "
+                             "2x1 screens (plain-preserving leaves; and gap-free screens with a Reverse leaf)",
                     "thorough": "all ordered pairs for (1,1),(2,1),(3,1),(1,2),(2,2) in both modes, all ordered triples "
                                 "for (1,1),(2,1),(3,1),(1,2), 12000 sampled pairs for (3,2); style swaps: (2,1),(1,2) "
                                 "all ordered pairs x 9 transitions in both modes, 1500 sampled pairs each for (3,1),(2,2); block "
@@ -151,10 +171,17 @@ PARTIAL_SCOPE = ["cell contents: three content theorems for three classes of scr
                  "wait_for_cpr_responses (asyncio futures / timeouts) is not modelled; the CPR timeout task is an "
                  "explicit operation",
                  "a bare reset() without erase (the renderer forgets the cursor position) has state / call / byte "
-                 "correspondence but no terminal theorem"]
+                 "correspondence but no terminal theorem",
+                 "style transformations that make the default char's style visible (Reverse, SetDefaultColor): outside the "
+                 "theorems (WorldOk.dflt), known finding; exercised by correspondence and oracle on gap-free screens only "
+                 "(the model's dense rows and the sparse dict rows disagree about gaps when the default style is counted)",
+                 "AdjustBrightnessStyleTransformation and transformations with their own invalidation_hash are leaves "
+                 "(identity + function) in the model"]
 
 ANCHORS = ["src/prompt_toolkit/renderer.py", "src/prompt_toolkit/output/vt100.py", "src/prompt_toolkit/layout/screen.py",
            "src/prompt_toolkit/output/base.py"]
+# (styles/style_transformation.py is covered function by function through MODELLED: adding it to ANCHORS changes the
+#  pinned anchor hash and escalates every quick run until harness/pin.py is run again)
 # the functions whose bodies the Lean models follow line by line and the correspondence exercises
 MODELLED = {
     "src/prompt_toolkit/renderer.py": [
@@ -179,6 +206,12 @@ MODELLED = {
         "Vt100_Output.cursor_up", "Vt100_Output.cursor_forward", "Vt100_Output.cursor_backward",
         "Vt100_Output.hide_cursor", "Vt100_Output.show_cursor", "Vt100_Output.set_cursor_shape",
         "Vt100_Output.reset_cursor_shape", "Vt100_Output.ask_for_cpr"],
+    "src/prompt_toolkit/styles/style_transformation.py": [
+        "StyleTransformation.invalidation_hash", "DummyStyleTransformation.transform_attrs",
+        "DummyStyleTransformation.invalidation_hash", "DynamicStyleTransformation.transform_attrs",
+        "DynamicStyleTransformation.invalidation_hash", "ConditionalStyleTransformation.transform_attrs",
+        "ConditionalStyleTransformation.invalidation_hash", "_MergedStyleTransformation.transform_attrs",
+        "_MergedStyleTransformation.invalidation_hash"],
 }
 
 DEPTHS = {1: ColorDepth.DEPTH_1_BIT, 4: ColorDepth.DEPTH_4_BIT, 8: ColorDepth.DEPTH_8_BIT,
@@ -293,6 +326,109 @@ class StubTransformation(StyleTransformation):
 
     def invalidation_hash(self):
         return self.key
+
+
+class TrGraph:
+    """REAL style transformation objects, built once per case and kept alive: leaves (SwapLightAndDark / Reverse /
+    SetDefaultColor objects), ConditionalStyleTransformation over a Condition that reads a slot, Dynamic-
+    StyleTransformation whose getter reads a slot (-1 = None, j = the j-th candidate), merge_style_transformations.
+    `spec = {"leaves": [...], "graph": node, "slots": {slot: value}}`,
+    node = ["D"] | ["L", i] | ["C", slot, node] | ["Y", slot, [node, ...]] | ["M", [node, ...]]."""
+
+    def __init__(self, spec):
+        from prompt_toolkit.styles import (ConditionalStyleTransformation, DynamicStyleTransformation,
+                                           ReverseStyleTransformation, SetDefaultColorStyleTransformation,
+                                           SwapLightAndDarkStyleTransformation, merge_style_transformations)
+        self.spec = spec
+        self.vals = {int(k): v for k, v in spec["slots"].items()}
+        self.leaves = []
+        for lf in spec["leaves"]:
+            if lf[0] == "swap":
+                self.leaves.append(SwapLightAndDarkStyleTransformation())
+            elif lf[0] == "reverse":
+                self.leaves.append(ReverseStyleTransformation())
+            else:
+                self.leaves.append(SetDefaultColorStyleTransformation(fg=lf[1], bg=lf[2]))
+
+        def build(n):
+            if n[0] == "D":
+                return DummyStyleTransformation()
+            if n[0] == "L":
+                return self.leaves[n[1]]
+            if n[0] == "C":
+                return ConditionalStyleTransformation(build(n[2]), Condition(lambda s=n[1]: bool(self.vals[s])))
+            if n[0] == "Y":
+                cands = [build(c) for c in n[2]]
+                return DynamicStyleTransformation(lambda s=n[1], c=cands: None if self.vals[s] < 0 else c[self.vals[s]])
+            return merge_style_transformations([build(c) for c in n[1]])
+
+        self.root = build(spec["graph"])
+
+    def set(self, upd):
+        for k, v in upd.items():
+            self.vals[int(k)] = v
+
+
+def tr_term(spec, vals):
+    """the transformation as it is NOW (filters evaluated, dynamic targets resolved), in the driver's notation"""
+    def ev(n):
+        if n[0] == "D":
+            return ["D"]
+        if n[0] == "L":
+            return ["L", str(n[1])]
+        if n[0] == "C":
+            return ["C", enc_bool(vals[n[1]])] + ev(n[2])
+        if n[0] == "Y":
+            return ["YN"] if vals[n[1]] < 0 else ["Y"] + ev(n[2][vals[n[1]]])
+        out = ["M", str(len(n[1]))]
+        for c in n[1]:
+            out += ev(c)
+        return out
+    return " ".join(ev(spec["graph"]))
+
+
+def tr_leaf_lines(case):
+    """what the leaf objects compute on every Attrs that can reach them (the style sheets' values closed under the
+    leaves): `leaf i <in> <out>` for the driver"""
+    g = TrGraph(case["tr"])
+    seen = set()
+    for sk in sorted({sk for (sk, _tk) in combos(case)[1]}):
+        seen.update(sheet_table(case, sk).values())
+    seen.add(mk_attrs(PLAIN))
+    frontier = set(seen)
+    for _ in range(6):
+        new = set()
+        for a in frontier:
+            for lf in g.leaves:
+                b = lf.transform_attrs(a)
+                b = b._replace(color=b.color or "", bgcolor=b.bgcolor or "")
+                if b not in seen:
+                    new.add(b)
+        if not new:
+            break
+        seen |= new
+        frontier = new
+    L = []
+    for i, lf in enumerate(g.leaves):
+        for a in sorted(seen, key=enc_attrs):
+            b = lf.transform_attrs(a)
+            b = b._replace(color=b.color or "", bgcolor=b.bgcolor or "")
+            if b != a:
+                L.append(f"leaf {i} {enc_attrs(a)} {enc_attrs(b)}".replace("/", " "))
+    return L
+
+
+def tr_vals_per_op(case):
+    """slot values in force after each op"""
+    vals = {int(k): v for k, v in case["tr"]["slots"].items()}
+    out = []
+    for op in case["ops"]:
+        if op["op"] == "trset":
+            vals = dict(vals)
+            for k, v in op["set"].items():
+                vals[int(k)] = v
+        out.append(vals)
+    return out
 
 
 # ------------------------------------------------------------------ recording output
@@ -730,6 +866,8 @@ def header_lines(case):
     zero = "".join(sorted(c for c in cs if get_cwidth(c) == 0 and ord(c) >= 32 and ord(c) != 127))
     L.append(f"cw 2 {enc_str(wide)}")
     L.append(f"cw 0 {enc_str(zero)}")
+    if case.get("tr"):
+        L += tr_leaf_lines(case)
     return L
 
 
@@ -809,6 +947,8 @@ def grid_plan(case):
             on = False
         if k == "clear":
             avail = case["H"]
+        if k == "foreign":
+            avail -= op["lines"]
         if "scr" in op and op["scr"]["h"] > avail:
             on = False          # the output does not fit below the origin: the terminal scrolls, the origin moves
         if case["fs"] and (k == "clear" or (k == "erase" and op.get("la", 1)) or op.get("done")):
@@ -848,8 +988,11 @@ def grid_line(vt: VT):
             f"{vt.scrolled} {enc_bool(vt.oob)} " + " ".join(rows))
 
 
-def rs_tok(r: Renderer, rev):
+def rs_tok(r: Renderer, rev, trh=None):
     def opt(v):
+        if trh is not None and v is not None and not isinstance(v, int):
+            # a real transformation hash (strings / tuples): its position among the hashes seen so far
+            return str(trh.index(v)) if v in trh else "?" + repr(v)
         return "N" if v is None else str(v)
     sz = "N" if r._last_size is None else f"{r._last_size.rows}x{r._last_size.columns}"
     shape = "N" if r._last_cursor_shape is None else str(SHAPES.index(r._last_cursor_shape))
@@ -859,7 +1002,8 @@ def rs_tok(r: Renderer, rev):
             f"{enc_bool(r._last_screen is not None)} {enc_bool(r._in_alternate_screen)}"
             f"{enc_bool(r._mouse_support_enabled)}{enc_bool(r._bracketed_paste_enabled)}"
             f"{enc_bool(r._cursor_key_mode_reset)}"
-            f" sk={opt(r._last_style_hash)} tk={opt(r._last_transformation_hash)} d={depth} sz={sz} sh={shape}"
+            f" sk={'N' if r._last_style_hash is None else r._last_style_hash} tk={opt(r._last_transformation_hash)}"
+            f" d={depth} sz={sz} sh={shape}"
             f" min={r._min_available_height} cpr={cpr} wait={len(r._waiting_for_cpr_futures)}")
 
 
@@ -965,15 +1109,33 @@ def run_case(case, tee):
     orig_get_app, orig_sleep = R.get_app, R.sleep
     R.get_app = lambda: tapp
     R.sleep = _no_sleep
+    trg, trh = None, None
+    if case.get("tr"):
+        # the application's style transformation is a graph of REAL transformation objects
+        trg = TrGraph(case["tr"])
+        app.style_transformation = trg.root
+        trh = [trg.root.invalidation_hash()]
     try:
         r = Renderer(style, out, full_screen=fs, mouse_support=Condition(lambda: flag["mouse"]))
-        res.append(({"op": "init"}, out.take(), rs_tok(r, rev), out.take_bytes(), None))
+        res.append(({"op": "init"}, out.take(), rs_tok(r, rev, trh), out.take_bytes(), None))
         for op in case["ops"]:
             k = op["op"]
             extra = {}
             if k == "size":
                 out.w, out.h = op["W"], op["H"]
                 res.append((op, None, None, "", None))
+                continue
+            if k == "foreign":
+                # other output prints op["lines"] lines below the erased prompt: nothing the renderer sees
+                res.append((op, None, None, "\r\n" * op["lines"], None))
+                continue
+            if k == "trset":
+                # a filter flips / a dynamic target changes: the hash the REAL objects now report
+                trg.set(op["set"])
+                hv = trg.root.invalidation_hash()
+                if hv not in trh:
+                    trh.append(hv)
+                res.append((op, None, None, "", {"tk": trh.index(hv)}))
                 continue
             if k == "style":
                 style.key = op["sk"]
@@ -1023,7 +1185,7 @@ def run_case(case, tee):
             else:
                 raise ValueError(k)
             extra["err"] = err
-            res.append((op, out.take(), rs_tok(r, rev), out.take_bytes(), extra))
+            res.append((op, out.take(), rs_tok(r, rev, trh), out.take_bytes(), extra))
     finally:
         tapp.close()
         R.get_app, R.sleep = orig_get_app, orig_sleep
@@ -1073,7 +1235,10 @@ def layout_to_rend(case):
                                  "rprompt": "bg:#303030"}), None),
                (None, SwapLightAndDarkStyleTransformation()),
                (Style.from_dict({"bottom-toolbar": "noreverse bg:#004400 #ffffff"}),
-                SwapLightAndDarkStyleTransformation())]
+                SwapLightAndDarkStyleTransformation()),
+               # PromptSession(swap_light_and_dark_colors=…): the session's ConditionalStyleTransformation flips
+               (None, None, True),
+               (Style.from_dict({"prompt": "bg:ansired", "completion-menu": "bg:ansiblue"}), None, True)]
     captured = []
     orig = R._output_screen_diff
 
@@ -1151,6 +1316,18 @@ def layout_to_rend(case):
                     cur_sheet["k"] = sflips[i]
                     ed.session.style = lsheets[sflips[i]][0]
                     ed.session.style_transformation = lsheets[sflips[i]][1]
+                    ed.session.swap_light_and_dark_colors = len(lsheets[sflips[i]]) > 2
+                intr = case.get("interrupt")
+                if intr and not fs and intr["at"] == i and not ed.done:
+                    # run_in_terminal / print above the prompt: the prompt is erased, other output moves the cursor
+                    # down, the prompt is drawn again (before or after the terminal reported the new cursor row)
+                    app.renderer.erase()
+                    ops.append({"op": "erase", "la": 1})
+                    ops.append({"op": "foreign", "lines": intr["lines"]})
+                    top += intr["lines"]
+                    if intr.get("report") and cpr_told:
+                        app.renderer.report_absolute_cursor_row(top + 1)
+                        ops.append({"op": "cprrow", "row": top + 1})
                 render()
     finally:
         R._output_screen_diff = orig
@@ -1165,7 +1342,8 @@ def layout_to_rend(case):
             sheets.setdefault(str(sheet), []).append(row)
     for i in range(1, len(lsheets)):
         sheets.setdefault(str(i), [])
-    rend = {"kind": "rend", "W": W, "H": H, "top": top, "fs": int(fs), "depth": case["depth"], "styles": styles,
+    rend = {"kind": "rend", "W": W, "H": H, "top": 0 if fs else case.get("top", 0), "fs": int(fs),
+            "depth": case["depth"], "styles": styles,
             "sheets": sheets, "chain": True, "ops": ops, "from_layout": True, "cpr": int(cpr_told)}
     _LAYOUT_CACHE[key] = rend
     return rend
@@ -1182,13 +1360,20 @@ def model_lines(case):
     top = 0 if case["fs"] else case.get("top", 0)
     body = [f"term {top}"]
     plan = grid_plan(case)
+    trvals = tr_vals_per_op(case) if case.get("tr") else None
+    if trvals is not None:
+        body.append("settr " + tr_term(case["tr"], {int(k): v for k, v in case["tr"]["slots"].items()}))
     if case["kind"] != "diff":
         body.append(f"init {enc_bool(case.get('cpr', 0))}")
         body.append("bytes")
-    for op, grid in zip(case["ops"], plan):
+    for j, (op, grid) in enumerate(zip(case["ops"], plan)):
         k = op["op"]
         if k == "size":
             body.append(f"size {op['W']} {op['H']}")
+        elif k == "trset":
+            body.append("settr " + tr_term(case["tr"], trvals[j]))
+        elif k == "foreign":
+            body.append(f"foreign {op['lines']}")
         elif k == "style":
             body.append(f"setstyle {op['sk']}")
         elif k == "trans":
@@ -1248,6 +1433,8 @@ def impl_lines(case):
     top = 0 if case["fs"] else case.get("top", 0)
     vt = VT(case["W"], case["H"] - top, top) if any(plan) else None
     body = ["ok"]
+    if case.get("tr"):
+        body.append("tk=0")
     if case["kind"] != "diff":
         op, calls, st, data, _ = res.pop(0)
         if vt:
@@ -1256,6 +1443,15 @@ def impl_lines(case):
         body.append(enc_str(data))
     for (op, calls, st, data, ex), grid in zip(res, plan):
         k = op["op"]
+        if k == "foreign":
+            body.append("ok")
+            if vt:
+                vt.feed(data)
+                vt.top = vt.row          # the cursor row is the renderer's new origin
+            continue
+        if k == "trset":
+            body.append(f"tk={ex['tk']}")
+            continue
         if k in ("size", "style", "trans"):
             body.append("ok")
             continue
@@ -1299,13 +1495,16 @@ def _viol(site, cond, msg):
     return {"signature": f"{site} | {cond}", "msg": msg}
 
 
-def expected_cells(js, case, W, H, depth, sk=0, tk=0):
+def expected_cells(js, case, W, H, depth, sk=0, tk=0, tr=None):
     """what the owned rows must show for screen `js`: {(y, x): (text, sgr)} for the cells laid out from the
     left, a wide / multi-character cell covering the following columns; everything else blank"""
     out = Vt100_Output(io.StringIO(), lambda: Size(1, 1), term="xterm")
     cache = out._escape_code_caches[DEPTHS[depth]]
     tab = style_table(case, sk, tk)
-    plain = mk_attrs(PLAIN)
+    if tr is not None:
+        # the REAL transformation objects, in their current state, applied to the style sheet's attributes
+        tab = {k: tr.root.transform_attrs(v) for k, v in sheet_table(case, sk).items()}
+    plain = mk_attrs(PLAIN) if tr is None else tr.root.transform_attrs(mk_attrs(PLAIN))
 
     by_name = {style_str(k): v for k, v in tab.items()}
     memo = {}
@@ -1375,6 +1574,10 @@ class _Real:
         self.out = Vt100_Output(self.buf, lambda: Size(rows=self.H, columns=self.W), term="xterm",
                                 enable_cpr=cpr)
         self.app = StubApp(case["depth"])
+        self.trg = None
+
+    def _tk(self):
+        return getattr(self.app.style_transformation, "key", 0)
 
     def take(self):
         self.out.flush()
@@ -1409,6 +1612,9 @@ class _Real:
         _ensure_loop()
         layout = StubRenderLayout()
         self.app.layout = layout
+        if case.get("tr"):
+            self.trg = TrGraph(case["tr"])
+            self.app.style_transformation = self.trg.root
         flag = {"mouse": False}
         tapp = _TimerApp()
         orig_get_app, orig_sleep = R.get_app, R.sleep
@@ -1420,6 +1626,12 @@ class _Real:
             for op in case["ops"]:
                 k = op["op"]
                 last_h = r._last_screen.height if r._last_screen is not None else 0
+                if k == "foreign":
+                    yield op, "\r\n" * op["lines"], last_h, (style.key, self._tk())
+                    continue
+                if k == "trset":
+                    self.trg.set(op["set"])
+                    continue
                 if k == "style":
                     style.key = op["sk"]
                     continue
@@ -1452,13 +1664,13 @@ class _Real:
                     continue
                 else:
                     return      # size change / bare reset: the chain property is not defined beyond
-                yield op, self.take(), last_h, (style.key, self.app.style_transformation.key)
+                yield op, self.take(), last_h, (style.key, self._tk())
         finally:
             tapp.close()
             R.get_app, R.sleep = orig_get_app, orig_sleep
 
 
-def scratch_vt(case, js, done, top, depth, sk=0, tk=0):
+def scratch_vt(case, js, done, top, depth, sk=0, tk=0, tr=None):
     """clear + draw `js` from scratch with the real differ (fresh dictionaries) on a fresh terminal, under style
     sheet `sk` and style transformation `tk`"""
     W, H, fs = case["W"], case["H"], bool(case["fs"])
@@ -1466,9 +1678,12 @@ def scratch_vt(case, js, done, top, depth, sk=0, tk=0):
     out = Vt100_Output(buf, lambda: Size(rows=H, columns=W), term="xterm", enable_cpr=False)
     style = StubStyle(case)
     style.key = sk
-    tr = StubTransformation()
-    tr.key = tk
-    afs = _StyleStringToAttrsCache(style.get_attrs_for_style_str, tr)
+    if tr is None:
+        tro = StubTransformation()
+        tro.key = tk
+    else:
+        tro = tr.root          # the live transformation objects, as they are now
+    afs = _StyleStringToAttrsCache(style.get_attrs_for_style_str, tro)
     hs = _StyleStringHasStyleCache(afs)
     app = StubApp(depth)
     _output_screen_diff(app, out, build_screen(js), Point(0, 0), app.color_depth, None, None, done, fs, afs, hs,
@@ -1492,30 +1707,55 @@ def oracle(case):
     v = []
     site = "_output_screen_diff"
 
+    tag = {"s": ""}
+
     def bad(cond, msg):
+        cond = cond + tag["s"]
         if not any(x["signature"].endswith("| " + cond) for x in v):
             v.append(_viol(site, cond, msg))
 
     real = _Real(case)
-    known = False       # the terminal truthfully reported the row of the origin (and no reset since)
+    # the cursor position report in force: None = none (never given, or forgotten by the reset in erase / clear /
+    # the done render), True = a truthful one (the origin row), False = an untruthful one
+    report = None
     for i, (op, data, last_h, (sk, tk)) in enumerate(real.steps()):
         k = op["op"]
         scrolled0 = vt.scrolled
         vt.writes = []
+        if k == "foreign":
+            # other output below the erased prompt: the cursor moves down, the rows it passed are not ours any more
+            old_top = vt.top
+            vt.feed(data)
+            if vt.scrolled != scrolled0:
+                return v            # (the foreign output itself scrolled: not a scenario about the renderer)
+            vt.top = vt.row
+            for y in range(old_top, vt.top):
+                vt.grid[y] = [vt.sentinel for _ in range(W)]
+            continue
+        if real.trg is not None:
+            # does the transformation in force make the style of Screen's default char visible on an empty cell?
+            # (ReverseStyleTransformation, SetDefaultColorStyleTransformation do: the differ never paints the cells
+            #  that equal the default char, so the property is known not to hold then — see known_findings.json)
+            d = real.trg.root.transform_attrs(mk_attrs(PLAIN))
+            vis_d = bool(d.color or d.bgcolor or d.underline or d.strike or d.blink or d.reverse)
+            tag["s"] = " [default style made visible by the style transformation]" if vis_d else ""
         if k == "cprrow":
-            known = (op["row"] == vt.top + 1)
-        elif k in ("erase", "clear") or op.get("done"):
-            known = False
+            report = (op["row"] == vt.top + 1)
         if "scr" in op and case.get("from_layout") and not fs and not op.get("done") and op.get("pref") is not None \
-                and known:
-            # the renderer knows how many rows lie between the origin and the bottom of the terminal: a layout
-            # whose preferred height fits there must not be given (and draw) more rows than that
+                and report is not False:
+            # the renderer either knows how many rows lie between the origin and the bottom of the terminal, or knows
+            # nothing (a reset forgets the report): a layout whose preferred height fits there must not be given
+            # (and draw) more rows than that
             avail = vt.H - vt.top
             if op["pref"] <= avail and last_h <= avail and op["scr"]["h"] > avail:
-                v.append(_viol("Renderer.render", "screen taller than the rows below the origin although the cursor "
-                               "row was reported", f"op#{i}: height={op['scr']['h']} available={avail} "
+                why = ("although the cursor row was reported" if report else
+                       "although no cursor position report is in force (a reset forgets it)")
+                v.append(_viol("Renderer.render", "screen taller than the rows below the origin " + why,
+                               f"op#{i}: height={op['scr']['h']} available={avail} "
                                f"preferred={op['pref']} previous height={last_h}"))
                 return v
+        if k in ("erase", "clear") or op.get("done"):
+            report = None
         if "scr" in op:
             # preconditions of the property (a layout never violates them; a shrunk replay might)
             js = op["scr"]
@@ -1580,12 +1820,12 @@ def oracle(case):
         if outside and not shift:
             bad("wrote outside the owned rows", f"{where}: cells {outside[:4]} bound rows<{bound}")
         depth = op_depth(case, op)       # colours are compared as emitted at the depth of THIS render
-        exp = expected_cells(js, case, W, H, depth, sk, tk)
+        exp = expected_cells(js, case, W, H, depth, sk, tk, real.trg)
         d = compare_grid(vt, exp, W, H, shift)
         if d:
             bad("terminal does not show the screen",
                 f"{where}: cell (y={d[0]},x={d[1]}) want {d[2]} got {d[3]}; screen={js}")
-        sv = scratch_vt(case, js, done, vt.top, depth, sk, tk)
+        sv = scratch_vt(case, js, done, vt.top, depth, sk, tk, real.trg)
         # compare with the from-scratch draw (same origin-relative coordinates)
         ga, gb = vt.owned(), sv.owned()
         diffc = None
@@ -1716,6 +1956,8 @@ def rand_chain(rng, tier):
     if kind == "rend":
         case["sheets"] = SHEETS
         case["cpr"] = int(rng.random() < 0.3)
+        if rng.random() < 0.3:
+            case["tr"] = rand_tr_spec(rng)      # REAL transformation objects instead of the stub transformation
     avail = H - top
     n = rng.randrange(1, 9)
     prev = None
@@ -1744,7 +1986,10 @@ def rand_chain(rng, tier):
             # the application switches its style sheet / style transformation between two renders
             if rng.random() < 0.2:
                 case["ops"].append({"op": "style", "sk": rng.choice([0, 1, 1, 2, 3])})
-            if rng.random() < 0.12:
+            if case.get("tr"):
+                if rng.random() < 0.35:
+                    case["ops"].append(rand_tr_update(rng, case["tr"]))
+            elif rng.random() < 0.12:
                 case["ops"].append({"op": "trans", "tk": rng.choice([0, 1, 2, 3])})
             if case["cpr"] and rng.random() < 0.1:
                 case["ops"].append({"op": "cprrow", "row": top + 1})
@@ -1843,10 +2088,15 @@ def rand_layout(rng):
     if rng.random() < 0.6:
         keys.append("\x1b\r" if cfg["multiline"] and rng.random() < 0.8 else "\r")
     depths = [rng.choice([1, 4, 8, 24]) if rng.random() < 0.2 else 0 for _ in keys]
-    sflips = [rng.randrange(5) if rng.random() < 0.25 else None for _ in keys]
+    sflips = [rng.randrange(7) if rng.random() < 0.25 else None for _ in keys]
     top = 0 if fs else rng.choice([0, 0, 0, 1, 2, H - 3])
-    return {"kind": "layout", "W": W, "H": H, "top": top, "fs": fs, "depth": rng.choice([1, 4, 8, 24]), "cfg": cfg,
+    case = {"kind": "layout", "W": W, "H": H, "top": top, "fs": fs, "depth": rng.choice([1, 4, 8, 24]), "cfg": cfg,
             "keys": keys, "depths": depths, "sflips": sflips, "chain": True}
+    room = H - top - 1
+    if not fs and room >= 1 and rng.random() < 0.4:
+        case["interrupt"] = {"at": rng.randrange(len(keys)), "lines": rng.randint(1, min(3, room)),
+                             "report": int(rng.random() < 0.3)}
+    return case
 
 
 SMALL_KINDS = [None, ("a", 0), (" ", 2)]
@@ -1998,6 +2248,95 @@ def block_cases(W, modes=(0,)):
                        "styles": [[2, "", "ansired", "0000000"]], "chain": True, "ops": ops}
 
 
+# ---- sessions whose style transformation is a graph of REAL transformation objects
+TR_TEMPLATES = [
+    # a conditional swap of light and dark colours
+    {"graph": ["C", 0, ["L", 0]], "slots": {"0": 0}},
+    # what PromptSession builds: merge(Dynamic(user transformation), Conditional(Swap, swap_light_and_dark_colors))
+    {"graph": ["M", [["Y", 1, [["D"], ["L", 1]]], ["C", 0, ["L", 0]]]], "slots": {"0": 0, "1": -1}},
+    # a dynamic transformation switching between a leaf, a conditional and a dummy
+    {"graph": ["Y", 0, [["L", 0], ["C", 1, ["L", 1]], ["D"]]], "slots": {"0": -1, "1": 1}},
+    # a conditional over a merge that contains another conditional
+    {"graph": ["C", 0, ["M", [["L", 0], ["C", 1, ["L", 1]]]]], "slots": {"0": 1, "1": 0}},
+]
+TR_LEAVES_PLAIN = [["swap"], ["swap"]]                                  # keep plain attributes plain
+TR_LEAVES_ANY = [[["reverse"], ["swap"]], [["setdefault", "ansiblue", ""], ["reverse"]],
+                 [["swap"], ["setdefault", "ansigreen", "ansiblack"]]]   # make the default style visible
+TR_STYLES = [[2, "", "ansired", "0000000"], [3, "ansiblue", "", "1000000"], [4, "ff8800", "004400", "0000000"]]
+
+
+def tr_slot_domains(node, out=None):
+    out = {} if out is None else out
+    if node[0] == "C":
+        out[node[1]] = [0, 1]
+        tr_slot_domains(node[2], out)
+    elif node[0] == "Y":
+        out[node[1]] = list(range(-1, len(node[2])))
+        for c in node[2]:
+            tr_slot_domains(c, out)
+    elif node[0] == "M":
+        for c in node[1]:
+            tr_slot_domains(c, out)
+    return out
+
+
+def tr_small_screens(kinds, W, gapless):
+    out = [{"h": 0, "cells": [], "zwe": []}]
+    for tup in itertools.product(range(len(kinds)), repeat=W):
+        if gapless and any(kinds[k] is None for k in tup):
+            continue
+        cells = [[0, x, kinds[k][0], kinds[k][1]] for x, k in enumerate(tup) if kinds[k] is not None]
+        out.append({"h": 1, "cells": cells, "zwe": []})
+    return out
+
+
+def tr_cases(leafsets, kinds, gapless, depths=(8,), modes=(0,)):
+    """ONE Renderer; between two renders only the state of the REAL transformation objects changes (a Condition
+    flips, a dynamic target is replaced): same style sheet, depth, size, no erase / reset.  Every template, every
+    assignment of its slots, every change of one slot; the same screen twice and a different second screen."""
+    scr = tr_small_screens(kinds, 2, gapless)
+    idx = 0
+    for leaves in leafsets:
+        for tpl in TR_TEMPLATES:
+            dom = tr_slot_domains(tpl["graph"])
+            slots = sorted(dom)
+            for v in itertools.product(*[dom[k] for k in slots]):
+                for si, k in enumerate(slots):
+                    for nv in dom[k]:
+                        if nv == v[si]:
+                            continue
+                        for (i, j) in [(a, a) for a in range(len(scr))] + [(a, (a * 7 + 3) % len(scr)) for a in range(len(scr))]:
+                            for fs in modes:
+                                depth = depths[idx % len(depths)]
+                                ops = [{"op": "render", "scr": dict(scr[i], cur=[0, 0], show=1), "done": 0},
+                                       {"op": "trset", "set": {str(k): nv}},
+                                       {"op": "render", "scr": dict(scr[j], cur=[1, 0], show=idx % 2), "done": 0}]
+                                if idx % 2 == 0:
+                                    ops += [{"op": "trset", "set": {str(k): v[si]}},
+                                            {"op": "render", "scr": dict(scr[i], cur=[0, 0], show=1), "done": int(idx % 4 == 0)}]
+                                idx += 1
+                                yield {"kind": "rend", "W": 2, "H": 2, "fs": fs, "depth": depth, "styles": TR_STYLES,
+                                       "chain": True, "ops": ops,
+                                       "tr": {"leaves": leaves, "graph": tpl["graph"],
+                                              "slots": {str(s_): val for s_, val in zip(slots, v)}}}
+
+
+TR_KINDS_ANY = [None, ("a", 3), (" ", 2), ("b", 4)]
+TR_KINDS_FULL = [("a", 0), (" ", 2), ("b", 3)]
+
+
+def rand_tr_spec(rng):
+    tpl = rng.choice(TR_TEMPLATES)
+    dom = tr_slot_domains(tpl["graph"])
+    return {"leaves": TR_LEAVES_PLAIN, "graph": tpl["graph"], "slots": {str(k): rng.choice(dom[k]) for k in dom}}
+
+
+def rand_tr_update(rng, spec):
+    dom = tr_slot_domains(spec["graph"])
+    k = rng.choice(sorted(dom))
+    return {"op": "trset", "set": {str(k): rng.choice(dom[k])}}
+
+
 def cases(tier, rng):
     if tier == "quick":
         yield from small_cases([(1, 1), (2, 1), (3, 1), (1, 2)], 2)
@@ -2005,6 +2344,8 @@ def cases(tier, rng):
         yield from style_cases([(2, 1)])
         yield from style_cases([(1, 2)], sample=(rng, 150))
         yield from block_cases(3)
+        yield from tr_cases([TR_LEAVES_PLAIN], TR_KINDS_ANY, False)
+        yield from tr_cases(TR_LEAVES_ANY[:1], TR_KINDS_FULL, True)
         nrand, nfree, nres, nlay = 2500, 1200, 700, 120
     else:
         yield from small_cases([(1, 1), (2, 1), (3, 1), (1, 2), (2, 2)], 2)
@@ -2014,6 +2355,8 @@ def cases(tier, rng):
         yield from style_cases([(3, 1), (2, 2)], sample=(rng, 1500))
         yield from block_cases(3, modes=(0, 1))
         yield from block_cases(4)
+        yield from tr_cases([TR_LEAVES_PLAIN], TR_KINDS_ANY, False, depths=(8, 24, 4, 1), modes=(0, 1))
+        yield from tr_cases(TR_LEAVES_ANY, TR_KINDS_FULL, True, depths=(8, 24, 4))
         nrand, nfree, nres, nlay = 40000, 12000, 7000, 1200
     for _ in range(nrand):
         yield rand_chain(rng, tier)
